@@ -1003,7 +1003,8 @@ def shrink(lines, fails, budget=400):
 
 def msg_class(msg):
     """a finding up to its numbers: what must stay the same while a failing program is minimised"""
-    return re.sub(r'-?\d+', 'N', msg)[:70]
+    # numbers and the LENGTH of lists of numbers do not belong to the class (a shrunk program invokes fewer steps)
+    return re.sub(r'\[(?:N(?:, )?)*\]', '[..]', re.sub(r'-?\d+', 'N', msg))[:70]
 
 
 def _has_class(lines, prop, kind, key):
